@@ -1,5 +1,6 @@
 //! cvh — cacache verification harness (property-based testing and fuzzing).
 pub mod blob;
+pub mod crash;
 pub mod damage;
 pub mod engine;
 pub mod exec;
